@@ -78,9 +78,13 @@ func (x *c04World) behave(self *c04Timer, what string) {
 		x.c.Logf("      handler(%s): close timer %d (expired-but-unprocessed=%v)", what, other.id, expired)
 		x.close(other)
 	case 2:
-		x.c.Logf("      handler(%s): cancel and re-schedule timer %d with a long delay (expired-but-unprocessed=%v)", what, other.id, expired)
+		d := time.Duration(r.Range(200, 5000)) * time.Millisecond
+		if r.Bool() {
+			d = time.Duration(r.Range(8, 40)) * time.Millisecond // short enough to come due within the script
+		}
+		x.c.Logf("      handler(%s): cancel and re-schedule timer %d with delay %v (expired-but-unprocessed=%v)", what, other.id, d, expired)
 		x.cancel(other)
-		x.schedule(other, time.Duration(r.Range(200, 5000))*time.Millisecond, false)
+		x.schedule(other, d, false)
 	case 3:
 		if self != nil && self.state == tReady {
 			x.c.Logf("      handler(%s): re-schedule itself", what)
@@ -327,16 +331,41 @@ func runC04(c *vf.Case) {
 			for i := 0; i < 3; i++ {
 				x.poll()
 			}
-			for i, tt := range due {
-				if tt.state == tScheduled && tt.sched == dueIDs[i] && tt.fires[dueIDs[i]] == 0 && !c.Failed() {
-					c.Failf("timer-did-not-fire", "timer %d: schedule %d (delay %v) is %v past its deadline, was never cancelled, and did not run in 3 poll cycles", tt.id, dueIDs[i], tt.d, time.Since(tt.tCall)-tt.d)
+			// The expiry is delivered by a kernel timer interrupt, which a loaded (virtual) CPU can delay by
+			// milliseconds: keep polling, and only call it lost after 3 s of wall-clock time (bounded progress).
+			pending := func() *c04Timer {
+				for i, tt := range due {
+					if tt.state == tScheduled && tt.sched == dueIDs[i] && tt.fires[dueIDs[i]] == 0 {
+						return tt
+					}
 				}
+				return nil
+			}
+			for dl := time.Now().Add(3 * time.Second); pending() != nil && time.Now().Before(dl) && !c.Failed(); {
+				time.Sleep(200 * time.Microsecond)
+				x.poll()
+				c.Count("waits_for_delayed_timer_interrupt", 1)
+			}
+			if tt := pending(); tt != nil && !c.Failed() {
+				c.Failf("timer-did-not-fire", "timer %d: schedule %d (delay %v) is %v past its deadline, was never cancelled, and did not run although the loop kept polling for 3 s", tt.id, tt.sched, tt.d, time.Since(tt.tCall)-tt.d)
 			}
 		default:
 			x.poll()
 		}
 		for _, tt := range x.timers {
 			x.checkScheduled(tt, "step")
+		}
+	}
+	// final phase: everything still scheduled with a short delay is cancelled; nothing may fire afterwards
+	if !c.Failed() {
+		for _, tt := range x.timers {
+			if tt.state == tScheduled && !tt.long {
+				x.cancel(tt)
+			}
+		}
+		time.Sleep(45 * time.Millisecond)
+		for i := 0; i < 4 && !c.Failed(); i++ {
+			x.poll()
 		}
 	}
 	c.Count("firings_checked", x.firings)
@@ -358,7 +387,7 @@ func init() {
 		Rule: "cases = scripts of 10-40 steps over 2-10 timers and 0-2 TCP conns on one IO: ScheduleOnce(d) with d from {<=0, 1 ms, 3 ms, 5-40 ms} (many sharing the same expiry), ScheduleRepeating(1-6 ms), Cancel, Close, NewTimer (descriptor reuse), forced-deferred reads made ready, 'sleep past the expiry then poll' so that expired timers share a batch, handlers that cancel / close / cancel-and-re-arm (200 ms-5 s) another timer, re-schedule or cancel themselves; " +
 			"non-trivial = a handler acted on a timer that had expired but was not yet processed in its batch, or a batch fired >= 2 timers; distinct = (timers, such operations, such batches, firings)",
 		Assumptions: []string{
-			"lateness is never a violation; 'does run' is only checked after the harness itself observed the deadline pass, within 3 poll cycles",
+			"lateness is never a violation; 'does run' is only checked after the harness itself observed the deadline pass; the loop is then polled for up to 3 s (a loaded virtual CPU can delay the timer interrupt by milliseconds)",
 			"epsilon for 'never early' = 50 us + 0.1 % of the delay (timerfd is on CLOCK_REALTIME, the monitor reads the monotonic clock)",
 			"a repeating timer's interval is measured between consecutive callback entries",
 		},
